@@ -330,6 +330,32 @@ def slp_eval(case):
 # sequence_log_probs (packed)
 # ----------------------------------------------------------------------------------------
 
+def valid_orders(lens):
+    """every longest-first order of the batch (= every legal sorted_indices of a PackedSequence with these lengths): the
+    elements of equal length may come in any order"""
+    groups = {}
+    for i, l in enumerate(lens):
+        groups.setdefault(l, []).append(i)
+    parts = [list(itertools.permutations(groups[l])) for l in sorted(groups, reverse=True)]
+    return [[i for g in combo for i in g] for combo in itertools.product(*parts)]
+
+
+def pack_with_order(lg, lens, sidx):
+    """the PackedSequence of the padded time-major lg (T, N, V) whose sorted_indices is the given longest-first order: what a
+    collate function that sorts the lengths itself, another device's sort or a re-packing module hands over.  It is a legal
+    PackedSequence of lg: pad_packed_sequence gives lg back (asserted here; Model.check_pack re-checks data/batch_sizes)"""
+    rnn = torch.nn.utils.rnn
+    lens_t, sidx_t = torch.tensor(lens), torch.tensor(sidx, dtype=torch.long)
+    inner = rnn.pack_padded_sequence(lg.index_select(1, sidx_t), lens_t[sidx_t], enforce_sorted=True)
+    uidx_t = torch.empty_like(sidx_t)
+    uidx_t[sidx_t] = torch.arange(len(sidx))
+    ps = rnn.PackedSequence(inner.data, inner.batch_sizes, sidx_t, uidx_t)
+    back, blens = rnn.pad_packed_sequence(ps, total_length=lg.size(0))
+    m = (torch.arange(lg.size(0)).unsqueeze(1) < lens_t).unsqueeze(-1)
+    assert blens.tolist() == list(lens) and torch.equal(back.masked_fill(~m, 0), lg.masked_fill(~m, 0)), "harness: not a PackedSequence of lg"
+    return ps
+
+
 def ps_eval(case):
     from pydrobert.torch.functional import sequence_log_probs
     lens, V, dim, eos = list(case["lens"]), case["V"], case["dim"], case["eos"]
@@ -342,10 +368,21 @@ def ps_eval(case):
     lg = (torch.tensor(lg, dtype=torch.float64).view(Tm, N, V) / 4).to(case_dtype(case))
     pool = list(range(V)) * 3 + [-1, V] + ([eos] if eos is not None else [])
     hyp = torch.tensor([r.choice(pool) for _ in range(Th * N)], dtype=torch.long).view(Th, N)
-    ps = torch.nn.utils.rnn.pack_padded_sequence(lg, torch.tensor(lens), enforce_sorted=bool(case["sorted"]))
+    order_kind = None
+    if case.get("order") is not None:
+        # a hand-made PackedSequence: the order-th of all legal longest-first sorted_indices (ties in any order)
+        orders = valid_orders(lens)
+        sidx_l = orders[case["order"] % len(orders)]
+        ps = pack_with_order(lg, lens, sidx_l)
+        own = torch.sort(torch.tensor(lens), descending=True)[1].tolist()
+        order_kind = "hand-made,same-as-torch.sort" if sidx_l == own else "hand-made,tie-broken-differently-from-torch.sort"
+    else:
+        ps = torch.nn.utils.rnn.pack_padded_sequence(lg, torch.tensor(lens), enforce_sorted=bool(case["sorted"]))
     bf = dim in (1, -1)
     hyp_in = hyp.T.contiguous() if bf else hyp
-    res = {"terms": [], "spec": [], "fail": [], "nontrivial": len(set(lens)) > 1}
+    res = {"terms": [], "spec": [], "fail": [], "nontrivial": len(set(lens)) > 1 or (order_kind or "").endswith("from-torch.sort")}
+    if order_kind:
+        res["order_kind"] = order_kind
     try:
         out = call_slp(case, ps, hyp_in, dim, eos)
     except Variant as e:
@@ -1083,6 +1120,237 @@ def dist_eval(case):
 
 
 # ----------------------------------------------------------------------------------------
+# SequentialLanguageModelDistribution: call sequences on ONE object ("dseq").  Every answer of every method must be what a
+# fresh object would give: whatever was asked before (enumerate_support with the other `expand`, samples, log_probs,
+# clear_cache) and whatever the caller did IN PLACE to the tensors handed out earlier.
+# ops: ["sup", form]  enumerate_support(), (True), (False), (expand=True), (expand=False)  - judged by Model.check_support
+#      ["edit_sup", k, how]  overwrite the k-th last returned support in place (add 1 / fill V+1 / one cell)
+#      ["sample", shape]     - members of the support; their walks' log-probs are kept
+#      ["edit_sample"]       overwrite the last returned sample with V+1 (never a legal value: it is not asked about again)
+#      ["lp_sample"]         log_prob(a copy of the last sample's original contents) == its walks' == Model.dist_log_prob
+#      ["lp_sup"]            log_prob(enumerate_support()) == Model.dist_log_prob / the definition; mass 1 per batch element
+#      ["edit_lp"]           overwrite the last returned log-prob tensor (cache_samples=True: followed by clear_cache(); the
+#                            unprotected variant is K8 and stays in dist_history (e))
+#      ["clear"], ["has"]
+# None of these sequences contains the two K8 patterns (log_prob of the SAME tensor object after an in-place edit; log_prob of
+# the cached value after an edit of its returned log-prob tensor without clear_cache), so K8 never applies to api "dseq".
+# ----------------------------------------------------------------------------------------
+
+SUP_FORMS = {"default": ((), {}, True), "pos_true": ((True,), {}, True), "pos_false": ((False,), {}, False),
+             "kw_true": ((), {"expand": True}, True), "kw_false": ((), {"expand": False}, False)}
+
+
+def canonical_support_set(V, T, eos):
+    """the definition: all token sequences of length T, everything after the first eos replaced by eos"""
+    out = set()
+    for s in itertools.product(range(V), repeat=T):
+        s = list(s)
+        if eos is not None and eos in s:
+            i = s.index(eos)
+            s = s[:i + 1] + [eos] * (T - i - 1)
+        out.add(tuple(s))
+    return out
+
+
+def log_prob_term(case, value, lp, V, eos, tol, name, res):
+    """Model.dist_log_prob on `value` (the table = the case's LM on the prefixes of value) vs the implementation's lp"""
+    bsz, S = case["batch_size"], value.size(-1)
+    ref, table = ref_log_prob(case, value, V, eos)
+    tab = cl([cp(cn(n), lz(list(pre)), lz([zs(x) for x in (torch.tensor(row, dtype=torch.float64) / 4).log_softmax(-1).tolist()]))
+              for (n, pre), row in sorted(table.items())])
+    if bsz is None:
+        res["terms"].append((name, f"check_dist_log_prob {cz(tol)} {tab} {cz(V)} {oz(eos)} "
+                             f"{lz(value.reshape(-1, S).tolist())} {lz([zs(x) for x in lp.reshape(-1).tolist()])}"))
+    else:
+        res["terms"].append((name, f"check_dist_log_prob_batched {cz(tol)} {tab} {cz(V)} {oz(eos)} "
+                             f"{lz(value.reshape(-1, bsz, S).tolist())} {lz([[zs(x) for x in r] for r in lp.reshape(-1, bsz).tolist()])}"))
+    return ref
+
+
+def dseq_eval(case):
+    from pydrobert.torch.modules import RandomWalk
+    from pydrobert.torch.distributions import SequentialLanguageModelDistribution
+    V, bsz, T = case["V"], case["batch_size"], case["max_iters"]
+    res = {"terms": [], "spec": [], "fail": [], "nontrivial": False, "situations": []}
+    rec = {}
+    lm = make_lm(V, case["lmseed"], case["by_n"], rec, None, torch.float64)
+    walk = RandomWalk(lm, case["eos"])
+    eos = norm_eos(case["eos"], V)
+    init = None
+    if case.get("bias") is not None:
+        init = {"bias": torch.tensor(case["bias"], dtype=torch.long)}
+    dist = SequentialLanguageModelDistribution(walk, bsz, init, T, cache_samples=case["cache"], validate_args=case["validate"])
+    sampler = Sampler(case, eos)
+    walks = []
+    orig = walk.forward
+
+    def fwd(*a, **k):
+        w = {"draws": sampler.new_walk(), "N": a[1]}
+        walks.append(w)
+        w["out"] = orig(*a, **k)
+        return w["out"]
+
+    walk.forward = fwd
+    torch.manual_seed(case.get("tseed") or 0)
+    Nn = 1 if bsz is None else bsz
+    bshape = () if bsz is None else (bsz,)
+    members = canonical_support_set(V, T, eos) if T is not None else None
+    sups, samples, seen_sup, impl = [], [], {}, []
+    last_lp, last_sup_form = None, None
+    tol, atol = TOL, ATOL
+
+    def fail(i, op, msg):
+        res["fail"].append(f"op {i} {op}: {msg} [after {json.dumps(case['ops'][:i])}]")
+
+    for i, op in enumerate(case["ops"]):
+        kind = op[0]
+        try:
+            if kind == "sup":
+                args, kw, expand = SUP_FORMS[op[1]]
+                if last_sup_form is not None:
+                    res["situations"].append(f"dseq.sup:{'expand' if last_sup_form[0] else 'compact'}->{'expand' if expand else 'compact'}"
+                                             + (",edited-between" if last_sup_form[1] else ""))
+                try:
+                    sup = dist.enumerate_support(*args, **kw)
+                except NotImplementedError:
+                    impl.append("NotImplementedError")
+                    if T is not None:
+                        fail(i, op, "enumerate_support raised NotImplementedError although max_iters is set")
+                    continue
+                if T is None:
+                    fail(i, op, "enumerate_support without max_iters did not raise NotImplementedError")
+                    continue
+                last_sup_form = [expand, False]
+                sups.append(sup)
+                K = len(members)
+                want = (K,) + (() if bsz is None else ((bsz,) if expand else (1,))) + (T,)
+                impl.append({"shape": list(sup.shape)})
+                if tuple(sup.shape) != want:
+                    fail(i, op, f"support of shape {tuple(sup.shape)}, expected {want} ({K} sequences"
+                                + ("" if bsz is None else ", one copy per batch element" if expand else ", compact") + ")")
+                    continue
+                if sup.dtype != torch.long:
+                    fail(i, op, f"support dtype {sup.dtype}")
+                    continue
+                cols = [sup] if bsz is None else [sup[:, j] for j in range(sup.size(1))]
+                rows = cols[0].tolist()
+                if any(c.tolist() != rows for c in cols[1:]):
+                    fail(i, op, "the batch elements do not get the same enumeration")
+                    continue
+                if set(map(tuple, rows)) != members or len(rows) != K:
+                    fail(i, op, f"not an enumeration of the support: {rows[:6]}...")
+                key = json.dumps(rows)
+                if key not in seen_sup:
+                    seen_sup[key] = len(seen_sup)
+                    res["terms"].append((f"model_support_op{i}", f"check_support {oz(eos)} {cn(T)} {cn(V)} {lz(rows)}"))
+                    res["spec"].append((f"spec_support_op{i}", f"forallb (in_support {oz(eos)} {cn(T)} {cz(V)}) {lz(rows)} && "
+                                        f"(List.length {lz(rows)} =? List.length (enumerate_support {oz(eos)} {cn(T)} {cn(V)}))%nat"))
+            elif kind == "edit_sup":
+                if sups:
+                    t = sups[-1 - op[1] % len(sups)]
+                    base = t if t.dim() == 2 else t.select(1, 0)       # an expanded support has stride 0 over the batch
+                    if op[2] == "add":
+                        base.add_(1)
+                    elif op[2] == "fill":
+                        base.fill_(V + 1)
+                    else:
+                        base[0, 0] = V + 2
+                    if last_sup_form is not None:
+                        last_sup_form[1] = True
+                    res["situations"].append("dseq.edit:returned-support-in-place")
+            elif kind == "sample":
+                shape = list(op[1])
+                n0 = len(walks)
+                with mock.patch.object(torch, "multinomial", sampler):
+                    s = dist.sample(torch.Size(shape))
+                impl.append({"sample": s.tolist()})
+                if tuple(s.shape[:-1]) != tuple(shape) + bshape or s.size(-1) == 0:
+                    fail(i, op, f"sample shape {tuple(s.shape)}")
+                    continue
+                new = [w["out"][2].double() for w in walks[n0:]]
+                if (bsz is None and len(new) != 1) or (bsz is not None and len(new) != prod(shape)):
+                    fail(i, op, "number of walks behind the sample")
+                    continue
+                wlp = (new[0] if bsz is None else torch.stack(new)).reshape(tuple(shape) + bshape)
+                samples.append({"t": s, "orig": s.clone(), "wlp": wlp})
+                S = s.size(-1)
+                if members is not None:
+                    flat = torch.nn.functional.pad(s, (0, T - S), value=eos if eos is not None else 0).reshape(-1, T).tolist()
+                    bad = [r for r in flat if tuple(r) not in members]
+                    if S > T or bad:
+                        fail(i, op, f"sample {bad[:2]} is not in the support")
+                if not bool(dist.support.check(s).all()):
+                    fail(i, op, "sample rejected by the wrapper's own support constraint")
+            elif kind == "edit_sample":
+                if samples:
+                    samples[-1]["t"].fill_(V + 1)
+                    res["situations"].append("dseq.edit:returned-sample-in-place,cache=%s" % case["cache"])
+            elif kind == "lp_sample":
+                if samples:
+                    v = samples[-1]["orig"].clone()
+                    lp = dist.log_prob(v)
+                    impl.append({"log_prob": lp.tolist()})
+                    if tuple(lp.shape) != tuple(v.shape[:-1]):
+                        fail(i, op, f"log_prob shape {tuple(lp.shape)}")
+                        continue
+                    if not torch.equal(v, samples[-1]["orig"]):
+                        fail(i, op, "log_prob overwrote its argument")
+                    last_lp = lp
+                    if not torch.isfinite(lp).all() or not torch.allclose(lp.double(), samples[-1]["wlp"], atol=atol, rtol=0):
+                        fail(i, op, f"log_prob of a copy of the sample {lp.tolist()} != its walks' log-probs {samples[-1]['wlp'].tolist()}")
+                    log_prob_term(case, v, lp, V, eos, tol, f"model_log_prob_op{i}", res)
+                    res["nontrivial"] = True
+            elif kind == "lp_sup":
+                if T is not None:
+                    sup = dist.enumerate_support()
+                    sups.append(sup)
+                    keep = sup.clone()
+                    lp = dist.log_prob(sup)
+                    impl.append({"log_prob_support": lp.tolist()})
+                    if tuple(lp.shape) != (len(members),) + bshape or tuple(sup.shape) != (len(members),) + bshape + (T,):
+                        fail(i, op, f"log_prob of enumerate_support(): shapes {tuple(sup.shape)} -> {tuple(lp.shape)}")
+                        continue
+                    if not torch.equal(sup, keep):
+                        fail(i, op, "log_prob overwrote its argument")
+                    last_lp = lp
+                    mass = lp.double().exp().sum(0)
+                    if not torch.allclose(mass, torch.ones_like(mass), atol=1e-9, rtol=0):
+                        fail(i, op, f"probabilities over enumerate_support() sum to {mass.tolist()}")
+                    if len(members) * Nn <= 48:
+                        ref = log_prob_term(case, keep, lp, V, eos, tol, f"model_log_prob_support_op{i}", res)
+                    else:
+                        ref, _ = ref_log_prob(case, keep, V, eos)
+                    if not torch.allclose(lp.double(), ref, atol=atol, rtol=0):
+                        fail(i, op, f"log_prob of enumerate_support() {lp.tolist()} != the definition {ref.tolist()}")
+                    res["nontrivial"] = True
+            elif kind == "edit_lp":
+                if last_lp is not None:
+                    last_lp.fill_(-7.25)
+                    res["situations"].append("dseq.edit:returned-log-probs-in-place,cache=%s" % case["cache"])
+                    if case["cache"]:
+                        dist.clear_cache()
+            elif kind == "clear":
+                dist.clear_cache()
+            elif kind == "has":
+                if bool(dist.has_enumerate_support) != (T is not None):
+                    fail(i, op, f"has_enumerate_support = {dist.has_enumerate_support}")
+            else:
+                raise AssertionError(f"harness: unknown op {op}")
+        except AssertionError:
+            raise
+        except Exception as e:  # noqa: BLE001
+            import traceback
+            if not any("/pydrobert/torch/" in f.filename or "/torch/distributions/" in f.filename for f in traceback.extract_tb(e.__traceback__)):
+                raise
+            impl.append(exc_kind(e))
+            fail(i, op, f"raised {exc_kind(e)}: {str(e)[:80]}")
+    res["impl"] = impl
+    if init is not None and not torch.equal(init["bias"], torch.tensor(case["bias"], dtype=torch.long)):
+        res["fail"].append("the wrapper overwrote the caller's initial state")
+    return res
+
+
+# ----------------------------------------------------------------------------------------
 # ctc_greedy_search
 # ----------------------------------------------------------------------------------------
 
@@ -1393,6 +1661,47 @@ def _g_adv(rng):
         if c["via"] == "script":
             c["tseed"] = rng.randrange(2 ** 31)
     if rng.random() < 0.3:
+        c["dtype"] = "f32"
+    return c
+
+
+def gen_ps_orders(chk):
+    """every legal PackedSequence layout of a small scope: every length pattern (N<=3, len<=3; thorough N<=4) x EVERY legal
+    longest-first sorted_indices (ties in any order, hand-made PackedSequence) + torch's own packing + enforce_sorted=True input
+    (sorted_indices None) where the pattern is non-increasing, hyp time-major and batch-major (positive and negative dim)"""
+    thorough = chk.tier == "thorough"
+    maxN, maxL = (4, 3) if thorough else (3, 3)
+    cases = []
+    k = 0
+    for N in range(1, maxN + 1):
+        for lens in itertools.product(range(1, maxL + 1), repeat=N):
+            layouts = [(o, False) for o in range(len(valid_orders(lens)))] + [(None, False)]
+            if list(lens) == sorted(lens, reverse=True):
+                layouts.append((None, True))
+            for order, srt in layouts:
+                for dim in (0, 1, -1, -2):
+                    k += 1
+                    if not thorough and (N >= 3 and k % 2 or len(set(lens)) == N and order is not None and k % 4):
+                        continue         # quick: half of the N=3 layouts; a quarter of the hand-made ones without a tie
+                    cases.append(dict(api="ps", lens=list(lens), Tpad=k % 2, V=2 + k % 3, dim=dim, sorted=srt, order=order,
+                                      eos=None if k % 3 else 1, seed=1000 + k, stream="exh-ps-order"))
+    return cases
+
+
+def _g_ps_order(rng):
+    """ragged batch with TIES (lengths from a small pool), a random legal sorted_indices (hand-made), torch's own, or already
+    sorted input with sorted_indices None / the explicit identity-up-to-ties"""
+    N = rng.choice([2, 3, 3, 4, 4, 5])
+    pool = rng.sample([1, 2, 3, 4, 5], rng.choice([1, 2, 2, 3]))
+    lens = [rng.choice(pool) for _ in range(N)]
+    V = rng.choice([1, 2, 3, 4])
+    mode = rng.choice(["hand", "hand", "hand", "torch", "sorted-none", "sorted-hand"])
+    c = dict(api="ps", lens=lens, Tpad=rng.choice([0, 0, 1, 2]), V=V, dim=rng.choice([0, 1, -1, -2]),
+             sorted=mode.startswith("sorted"), order=None if mode in ("torch", "sorted-none") else rng.randrange(720),
+             eos=rng.choice([None, 0, V - 1]), seed=rng.randrange(2 ** 31), stream="rb-ps-order")
+    if rng.random() < 0.5:
+        c["via"], c["form"] = rng.choice(PS_VIAS), rng.randrange(12)
+    if rng.random() < 0.25:
         c["dtype"] = "f32"
     return c
 
